@@ -63,10 +63,7 @@ Definition Pos (n : notif) (b a : N) (i : nat) (s : dstate) : Prop :=
       match i with
       | 0%nat => Quiescent s /\ logical s = b /\ disk s = a
       | 1%nat => wlock s = true /\ saved_ok s /\ logical s = b /\ disk s = a
-      | 2%nat => wlock s = true /\ saved s = None /\ logical s = b /\ disk s = a
-      | 3%nat => Quiescent s /\ logical s = b /\ disk s = a
-      | 4%nat => wlock s = true /\ saved_ok s /\ logical s = b /\ disk s = a
-      | 5%nat => wlock s = true /\ saved_ok s /\ opened s = None /\ disk s = a
+      | 2%nat => wlock s = true /\ saved s = None /\ opened s = None /\ disk s = a
       | _ => Quiescent s /\ opened s = None /\ disk s = a
       end
   | NChangeOld _ => False
